@@ -1407,6 +1407,8 @@ class Interp(object):
         raise Unsupported('membership in %r' % (container,))
 
     def getattr(self, o, name):
+        if isinstance(o, slice) and name in ('start', 'stop', 'step'):
+            return getattr(o, name)
         if isinstance(o, SObj):
             if name in o.fields:
                 return o.fields[name]
@@ -1752,6 +1754,8 @@ def _b_isinstance(I_, a, k):
             res = res or isinstance(x, (set, frozenset))
         elif n == 'float':
             res = res or isinstance(x, float)
+        elif n == 'slice':
+            res = res or isinstance(x, slice)
         elif n == 'FunctionType':
             res = res or isinstance(x, (FuncVal, Builtin))
     return res
@@ -1983,6 +1987,7 @@ BUILTINS = {
     'hex': Builtin('hex', lambda I_, a, k: hex(*a)),
     'print': Builtin('print', lambda I_, a, k: None),
     'NotImplemented': NotImplemented,
+    'slice': Builtin('slice', lambda I_, a, k: slice(*a)),
 }
 
 
